@@ -1,2 +1,192 @@
+//! T5: the tag tables of the mmCIF reader and the literal text of the mmCIF writer -> Gen/CifTags.v
+//!  * cif_reader_columns : the define_columns! table of parse_atoms (label, required)
+//!  * cif_reader_items / cif_reader_prefixes : the item names matched exactly / by starts_with in parse_mmcif_with_options
+//!  * cif_reader_loop_prefix : the prefix that makes a loop the atom loop
+//!  * cif_writer_formats : the format strings of the write! invocations of save_mmcif_raw, in order, with their argument counts
+use crate::util::*;
+use proc_macro2::{TokenStream, TokenTree};
 use std::path::Path;
-pub fn generate(_repo: &Path) -> Result<String, String> { Err("not implemented".into()) }
+use syn::visit::Visit;
+use syn::*;
+
+struct Macros {
+    name: String,
+    found: Vec<TokenStream>,
+}
+impl<'ast> Visit<'ast> for Macros {
+    fn visit_macro(&mut self, m: &'ast Macro) {
+        if m.path.segments.last().map(|s| s.ident.to_string()).as_deref() == Some(self.name.as_str()) {
+            self.found.push(m.tokens.clone());
+        }
+        visit::visit_macro(self, m);
+    }
+}
+
+fn lit_str(t: &TokenTree) -> Option<String> {
+    if let TokenTree::Literal(l) = t {
+        if let Ok(Lit::Str(s)) = syn::parse_str::<Lit>(&l.to_string()) {
+            return Some(s.value());
+        }
+    }
+    None
+}
+
+struct Arms {
+    exact: Vec<String>,
+    prefixes: Vec<String>,
+    loop_prefix: Vec<String>,
+}
+impl Arms {
+    fn pat(&mut self, p: &Pat) {
+        match p {
+            Pat::Lit(l) => {
+                if let Lit::Str(s) = &l.lit {
+                    self.exact.push(s.value());
+                }
+            }
+            Pat::Or(o) => {
+                for c in &o.cases {
+                    self.pat(c);
+                }
+            }
+            // `s if s.starts_with("...")`
+            Pat::Guard(g) => {
+                self.pat(&g.pat);
+                if let Some(s) = starts_with_arg(&g.guard) {
+                    self.prefixes.push(s);
+                }
+            }
+            _ => {}
+        }
+    }
+}
+/// string literal argument of a `<x>.starts_with("...")` call
+fn starts_with_arg(e: &Expr) -> Option<String> {
+    if let Expr::MethodCall(m) = e {
+        if m.method == "starts_with" {
+            if let Some(Expr::Lit(ExprLit { lit: Lit::Str(s), .. })) = m.args.first() {
+                return Some(s.value());
+            }
+        }
+    }
+    None
+}
+impl<'ast> Visit<'ast> for Arms {
+    fn visit_arm(&mut self, a: &'ast Arm) {
+        self.pat(&a.pat);
+        visit::visit_arm(self, a);
+    }
+    fn visit_expr_closure(&mut self, c: &'ast ExprClosure) {
+        // multiple.header.iter().any(|h| h.starts_with("atom_site."))
+        if let Some(s) = starts_with_arg(&c.body) {
+            self.loop_prefix.push(s);
+        }
+        visit::visit_expr_closure(self, c);
+    }
+}
+
+pub fn generate(repo: &Path) -> std::result::Result<String, String> {
+    // ----- reader -----
+    let parser = parse_rs(repo, "src/read/mmcif/parser.rs")?;
+    let atoms = find_fn(&parser, "parse_atoms").ok_or("parse_atoms not found")?;
+    let mut m = Macros { name: "define_columns".into(), found: vec![] };
+    m.visit_item_fn(atoms);
+    if m.found.len() != 1 {
+        return Err(format!("expected one define_columns! invocation, found {}", m.found.len()));
+    }
+    // rows: <int> , <IDENT> , "<label>" , <Required|Optional> ;
+    let toks: Vec<TokenTree> = m.found[0].clone().into_iter().collect();
+    let mut columns: Vec<(String, bool)> = Vec::new();
+    for row in toks.split(|t| matches!(t, TokenTree::Punct(p) if p.as_char() == ';')) {
+        if row.is_empty() {
+            continue;
+        }
+        let fields: Vec<&[TokenTree]> = row.split(|t| matches!(t, TokenTree::Punct(p) if p.as_char() == ',')).collect();
+        if fields.len() != 4 || fields[2].len() != 1 || fields[3].len() != 1 {
+            return Err(format!("unexpected row in define_columns!: {}", row.iter().map(|t| t.to_string()).collect::<Vec<_>>().join(" ")));
+        }
+        let label = lit_str(&fields[2][0]).ok_or("column label is not a string literal")?;
+        let req = match fields[3][0].to_string().as_str() {
+            "Required" => true,
+            "Optional" => false,
+            other => return Err(format!("unexpected column mode {other}")),
+        };
+        let idx: usize = fields[0].iter().map(|t| t.to_string()).collect::<String>().parse().map_err(|_| "column index is not a number")?;
+        if idx != columns.len() {
+            return Err(format!("column indices are not consecutive at {label}"));
+        }
+        columns.push((label, req));
+    }
+    let main = find_fn(&parser, "parse_mmcif_with_options").ok_or("parse_mmcif_with_options not found")?;
+    let mut arms = Arms { exact: vec![], prefixes: vec![], loop_prefix: vec![] };
+    arms.visit_item_fn(main);
+    if arms.loop_prefix.len() != 1 {
+        return Err(format!("expected one atom loop test, found {}", arms.loop_prefix.len()));
+    }
+    // ----- writer -----
+    let writer = parse_rs(repo, "src/save/mmcif.rs")?;
+    let save = find_fn(&writer, "save_mmcif_raw").ok_or("save_mmcif_raw not found")?;
+    let mut w = Macros { name: "write".into(), found: vec![] };
+    w.visit_block(&save.block);
+    let mut formats: Vec<(String, usize)> = Vec::new();
+    for ts in &w.found {
+        let toks: Vec<TokenTree> = ts.clone().into_iter().collect();
+        if toks.is_empty() {
+            return Err("empty write! invocation".into());
+        }
+        // the macro definition itself matches `$($arg:tt)*`: skip token streams that do not start with a string literal
+        let Some(f) = lit_str(&toks[0]) else {
+            continue;
+        };
+        // top-level commas separate the arguments
+        let args = toks.iter().filter(|t| matches!(t, TokenTree::Punct(p) if p.as_char() == ',')).count();
+        // a trailing comma does not add an argument
+        let trailing = matches!(toks.last(), Some(TokenTree::Punct(p)) if p.as_char() == ',');
+        let n = if trailing { args - 1 } else { args };
+        if f.matches("{}").count() != n {
+            return Err(format!("write! with {} placeholders and {} arguments", f.matches("{}").count(), n));
+        }
+        if f.contains('{') && f.replace("{}", "").contains('{') {
+            return Err("write! with a format specification other than {}".into());
+        }
+        formats.push((f, n));
+    }
+    // the extra header lines of the anisotropic columns are a literal inside an argument of the loop header write!
+    fn literals(ts: TokenStream, out: &mut Vec<String>) {
+        for t in ts {
+            match &t {
+                TokenTree::Group(g) => literals(g.stream(), out),
+                other => {
+                    if let Some(s) = lit_str(other) {
+                        out.push(s);
+                    }
+                }
+            }
+        }
+    }
+    let mut all = Vec::new();
+    for ts in &w.found {
+        literals(ts.clone(), &mut all);
+    }
+    let aniso: Vec<&String> = all.iter().filter(|l| l.contains("aniso_U")).collect();
+    if aniso.len() != 1 {
+        return Err(format!("expected one literal with the anisotropic column names, found {}", aniso.len()));
+    }
+    if formats.is_empty() {
+        return Err("no write! invocation found in save_mmcif_raw".into());
+    }
+    let mut s = String::new();
+    s.push_str("(* GENERATED by translators/rs2coq (T5): tag tables of the mmCIF reader and literal text of the mmCIF writer. Do not edit. *)\n");
+    s.push_str("From Coq Require Import List String.\nImport ListNotations.\nOpen Scope string_scope.\n");
+    s.push_str("Definition cif_reader_columns : list (string * bool) := [\n");
+    s.push_str(&columns.iter().map(|(l, r)| format!("  ({}, {})", coq_str(l), r)).collect::<Vec<_>>().join(";\n"));
+    s.push_str("\n].\n");
+    s.push_str(&format!("Definition cif_reader_items : list string := [{}].\n", arms.exact.iter().map(|x| coq_str(x)).collect::<Vec<_>>().join("; ")));
+    s.push_str(&format!("Definition cif_reader_prefixes : list string := [{}].\n", arms.prefixes.iter().map(|x| coq_str(x)).collect::<Vec<_>>().join("; ")));
+    s.push_str(&format!("Definition cif_reader_loop_prefix : string := {}.\n", coq_str(&arms.loop_prefix[0])));
+    s.push_str(&format!("Definition cif_writer_aniso_header : string := {}.\n", coq_str(aniso[0])));
+    s.push_str("Definition cif_writer_formats : list (string * nat) := [\n");
+    s.push_str(&formats.iter().map(|(f, n)| format!("  ({}, {n})", coq_str(f))).collect::<Vec<_>>().join(";\n"));
+    s.push_str("\n].\n");
+    Ok(s)
+}
